@@ -27,7 +27,7 @@ def replay(world, ob):
     return r
 
 
-def fault_scenarios(versions=("2.0", "2.1", "2.2"), tier="quick"):
+def fault_scenarios(versions=("2.0", "2.1", "2.2"), tier="quick", prop=None):
     """The property's own quantifier, bounded: up to four buffered commands over two nodes, every subset (size <= 2) of failing
     write attempts, three wakes of node 1 and one of node 2; real gateway vs the reference model."""
     import itertools
@@ -51,6 +51,8 @@ def fault_scenarios(versions=("2.0", "2.1", "2.2"), tier="quick"):
                 tr.fail_writes = set(fs)
                 ref.fail_set = set(fs)
                 diffs = rm.drive(gw, tr, ref, steps)
+                if prop is not None:
+                    diffs = [d for d in diffs if prop in d[0]]
                 n += 1
                 if diffs:
                     return {"version": v, "buffered": chosen, "failing_write_attempts": list(fs), "wakes": "1,1,2,1", "observed": diffs[0][1]}, n
